@@ -19,11 +19,12 @@
 From Verif Require Import GoSem Audio AudioProofs.
 From Verif Require Timeline TimelineProofs AudioRef AudioRefProofs.
 
-(** C03_boundary. calcAudioTimeFromRef computes, whenever its products fit into 64 bits, the least
-    multiple of the frame duration that is at or after the reference time: a multiple of [F], at or
-    after [t], less than one frame late, below every other such multiple, monotone in [t]. *)
+(** C03_boundary. calcAudioTimeFromRef (product, division and comparison on 128 bits since the fix of
+    finding audio-time-uint64-overflow) computes, for ALL inputs whose result fits into 64 bits, the least
+    multiple of the frame duration that is at or after the reference time: a multiple of [F], at or after
+    [t], less than one frame late, below every other such multiple, monotone in [t]. *)
 Theorem C03_boundary : forall r F a t,
-  0 < r -> 0 < F -> 0 < a -> 0 <= t -> t * a + F * r < two64 ->
+  0 < r -> 0 < F -> 0 < a -> 0 <= t -> fb r F a t < two64 ->
   calcAudioTimeFromRef t r F a = Ok (fb r F a t)
   /\ fb r F a t mod F = 0
   /\ t * a <= fb r F a t * r
@@ -32,6 +33,20 @@ Theorem C03_boundary : forall r F a t,
   /\ (forall t', t <= t' -> fb r F a t <= fb r F a t').
 Proof. exact boundary_all. Qed.
 Print Assumptions C03_boundary.
+
+(** C03_boundary_before_fix. The function as it was (refTime*audioTimescale and the comparison in uint64)
+    computed the frame boundary only while [t*a + F*r < 2^64]; beyond that range it was wrong: with a 10 MHz
+    reference timescale, 1 700 000 098 s after the start, it returned 434330780672 where the frame boundary
+    (and the repaired function) is 81600004704256. *)
+Theorem C03_boundary_before_fix :
+  (forall r F a t, 0 < r -> 0 < F -> 0 < a -> 0 <= t -> t * a + F * r < two64 ->
+     calcAudioTimeFromRef_before_fix t r F a = Ok (fb r F a t)) /\
+  two64 <= 17000000980000000 * 48000 /\
+  calcAudioTimeFromRef_before_fix 17000000980000000 10000000 1024 48000 = Ok 434330780672 /\
+  fb 10000000 1024 48000 17000000980000000 = 81600004704256 /\
+  calcAudioTimeFromRef 17000000980000000 10000000 1024 48000 = Ok 81600004704256.
+Proof. exact boundary_before_fix_witness. Qed.
+Print Assumptions C03_boundary_before_fix.
 
 (** C03_recipe. For a reference segment inside loop [w] of a reference loop of duration [D] the
     recipe has the frame boundaries of the segment as output interval, the same interval shifted by
